@@ -177,6 +177,14 @@ def checker(el, feed, call, res, client):
     out, cnt = [], {}
     base = {r["geographic_unit_fips"]: r for r in ref.rows(el.pre)}
     urows = ref.rows(res["unit_data"])
+    strangers = [u["geographic_unit_fips"] for u in urows if u["unit_category"] == "expected"
+                 and u["geographic_unit_fips"] not in base]
+    if strangers:
+        # a unit is modelled although the baseline of the configured states does not contain it (e.g. a row of a state
+        # the config does not name): the median is then not the one over the modelled reporting units of the statement
+        return [dict(key="C05/modelled-unit-outside-the-configured-baseline",
+                     msg=f"{len(strangers)} units are treated as modelled ('expected') but are not in the baseline of "
+                         f"the configured states: {strangers[:5]}", witness=dict(units=strangers[:10]))], cnt
     for e in call["estimands"]:
         rep = [u for u in urows if u["unit_category"] == "expected" and u["reporting"] == 1]
         non = [u for u in urows if u["unit_category"] == "expected" and u["reporting"] == 0]
